@@ -44,6 +44,10 @@ Theorem C06_write_order_is_the_source : forall l k g inner bs, dump_layer l k g 
 Proof. exact write_order_is_the_source. Qed.
 Theorem C06_read_order_is_write_order : forallb reads_match_writes seq_layers = true.
 Proof. exact read_order_is_write_order. Qed.
+(* the field: dump writes header, backend, footer; field(std::istream&) reads them in that order *)
+Theorem C06_field_order_is_the_source : forall s f bs, dump s f = Some bs ->
+  exists b, dump_layers (fst s) (snd s) (f_cfgs f) (f_prim f) = Some b /\ bs = flat_map (field_item_bytes b) field_write_seq.
+Proof. exact dump_order_is_the_source. Qed.
 
 (* non-vacuity: a five-layer stack with every kind of configuration *)
 Example C06_example :
